@@ -579,7 +579,6 @@ func init() {
 		Shards: func(tier string) []engine.Shard {
 			return textShards("C10", c10Sets(tier), 7, func(t []byte, idx int64, st *engine.Stats, col *engine.Collector) {
 				checkSegmentsText(t, st, col)
-				st.States++
 				if len(st.Samples) < 2 && len(t) > 5 {
 					st.Sample(map[string]any{"text": string(t), "all (minLen,maxLen) with": "0 <= minLen <= maxLen <= len+1"})
 				}
